@@ -9,7 +9,8 @@ PROP = "C05"
 CHECK_MODULE = "Check.C05"
 COQ_IMPORTS = "Model.AnnotationOps Check.AnnCommon"
 SHARD = 300
-RULE = ("(timeline, other timeline, support as Segment or Timeline): every timeline of <=2 (quick) / <=3 (thorough) "
+RULE = ("[also: x.co_iter(x) against x.co_iter(x.copy()); copies translated by up to 1.7e9 s] " +
+        "(timeline, other timeline, support as Segment or Timeline): every timeline of <=2 (quick) / <=3 (thorough) "
         "segments x every support of <=2 segments on a 6-point grid (overlapping, abutting, nested, touching support "
         "bounds) in K0, a random third of that product in K4/K1, plus random larger pairs; observed: list(co_iter), "
         "crop in the three modes (Timeline and crop_iter), crop(returns_mapping=True); copies translated 2 h, 28 h, 3 d or -8 h 20 min from the origin; non-trivial = at least one "
